@@ -87,8 +87,28 @@ def slot_entropy(size, slot, value):
     return (v & ((1 << ent_bits) - 1)).to_bytes(size, "big")
 
 
+_PURE = ["00" * 16, "00" * 15 + "01", "00" * 20, "ff" * 16, "ff" * 32, "00" * 32, "7f" * 16, "7f" * 24]
+
+
+def _ev_judge(i):
+    import hashlib as _h
+    ent = _h.sha256(b"c04-ev-%d" % i).digest()[:(16, 20, 24, 28, 32)[i % 5]]
+    return chk_encode(ent, "fn")[1]
+
+
+def _pure_judge(i):
+    return chk_encode(bytes.fromhex(_PURE[i]), "fn")[1] + chk_encode(bytes.fromhex(_PURE[i]), "wallet")[1]
+
+
 def execute(case):
-    k = case["k"]
+    k = case.get("k")
+    if "hist" in case:
+        from ..core import isolated
+        from ..bfs import PureCalls
+        r = isolated(PureCalls(10**6, _ev_judge if case.get("layer") == "encoder-revisits" else _pure_judge, P).run, case["hist"])
+        for v in r["viols"]:
+            v["case"] = case
+        return R(r["label"], viols=r["viols"])
     outcomes, viols, n = {}, [], 0
 
     def acc(res, single):
@@ -181,6 +201,25 @@ def run(ctx):
         for variant in (body, b"\x00" * n, b"\xff" * n):
             cases.append({"k": "rej", "hex": variant.hex(), "n": n})
             cases.append({"k": "rej", "hex": variant.hex().upper(), "n": n})
+    # an illegal number of bytes written with blanks so that the CHARACTER count equals that of a legal size
+    for chars in (32, 40, 48, 56, 64):
+        for short in (1, 2, 3, 4):
+            nb = chars // 2 - short
+            if nb in SIZES:
+                continue
+            h = bytes((i * 29 + 3) % 256 for i in range(nb)).hex()
+            for where in ("inner", "spread", "ends"):
+                blanks = 2 * short
+                if where == "inner":
+                    t = h[:6] + " " * blanks + h[6:]
+                elif where == "spread":
+                    t = h
+                    for j in range(blanks):
+                        cut = 2 + 4 * j
+                        t = t[:cut + j] + " " + t[cut + j:]
+                else:
+                    t = " " * (blanks // 2) + h + " " * (blanks - blanks // 2)
+                cases.append({"k": "rej", "hex": t, "n": nb})
     ctx.product("illegal-sizes", cases, execute)
     cases = []
     for size in SIZES:
@@ -191,4 +230,10 @@ def run(ctx):
                    " ".join(pairs) + " ", h + "  ", " ".join(["00"] * size), (" ".join(pairs))[:-1]):
             cases.append({"k": "ws", "hex": ws})
     ctx.product("whitespace-hex", cases, execute)
+    from ..bfs import bfs, long_histories, PureCalls
+    model = PureCalls(len(_PURE), _pure_judge, P)
+    bfs(ctx, "encoder-call-histories", model, 3 if ctx.thorough else 2)
+    long_histories(ctx, "encoder-call-histories+long", model, rotations=8 if ctx.thorough else 3, rounds=2)
+    from ..bfs import eviction_probe
+    eviction_probe(ctx, "encoder-revisits", PureCalls(10**6, _ev_judge, P), lambda i: i)
     return {}
